@@ -38,7 +38,7 @@ fn fst_bin() -> Result<PathBuf, String> {
             .args(["build", "--release", "--offline", "-p", "fst-bin", "--target-dir"])
             .arg(&tdir)
             .current_dir(&repo)
-            .env("RUSTFLAGS", "--cfg burntsushi_fst_verif")
+            .env("RUSTFLAGS", if crate::hooks::available() { "--cfg burntsushi_fst_verif" } else { "" })
             .env("CARGO_NET_OFFLINE", "true")
             .output()
             .map_err(|e| format!("cargo: {}", e))?;
